@@ -39,11 +39,12 @@ def prog_kinds(prog):
 
 PROPS = {
     "C01": dict(
-        gens=[tlc("c01"), rand("stream_any", 600, "quick"), rand("stream_any", 30000, "thorough")],
+        gens=[tlc("c01"), rand("stream_any", 600, "quick"), rand("stream_unsorted", 400, "quick"),
+              rand("stream_any", 30000, "thorough"), rand("stream_unsorted", 20000, "thorough")],
         tv_props=["C01"],
         must_fire=["C01.reassemble", "C01.chunks_have_text"],
         rule="TLC-enumerated small trees (Gen.tla scope c01) plus seeded random trees (multi-byte text, wild maps, "
-             "overlapping/out-of-range replacements, cached replay through a clone); non-trivial = the tree has a "
+             "overlapping/out-of-range replacements, maps whose columns go backwards, cached replay through a clone); non-trivial = the tree has a "
              "composite or map-carrying node (concat/replace/cached/sms)",
         nontrivial=lambda p: bool(prog_kinds(p) & {"concat", "replace", "cached", "sms", "default"}),
     ),
